@@ -1,6 +1,7 @@
 package codec
 
 import (
+	"bytes"
 	"encoding/binary"
 	"fmt"
 	"io"
@@ -61,13 +62,16 @@ func (cc *CMPPCodec) DecodeBlocked(c ConnReader) ([]byte, error) {
 		return nil, ErrInvalidPacketLength
 	}
 
-	left := make([]byte, totalLen)
-	_, err = io.ReadFull(c, left[cmpp.PacketTotalLengthBytes:])
+	// the body is read as it arrives: the declared length is untrusted and must not size an allocation
+	left := bytes.NewBuffer(make([]byte, 0, initialFrameCapacity(totalLen)))
+	left.Write(totalLenBytes)
+	n, err := io.CopyN(left, c, int64(totalLen-cmpp.PacketTotalLengthBytes))
 	if err != nil {
+		if err == io.EOF && n > 0 {
+			err = io.ErrUnexpectedEOF
+		}
 		return nil, err
 	}
 
-	copy(left[:cmpp.PacketTotalLengthBytes], totalLenBytes)
-
-	return left, nil
+	return left.Bytes(), nil
 }
